@@ -245,7 +245,6 @@ func integerBounds(x *Ctx) {
 	x.noPath("C10.R4", "asint-error", f, paths.WantSuccess, paths.Both(isInt, atoms(map[string]bool{eqs("const(nil)", asInt+"#1"): false})), 0, "an integer that does not fit int64 is rejected")
 	x.somePath("C10.R4", "at-max", f, paths.WantSuccess, paths.Both(isInt, okErr, paths.ValueIs(asInt+"#0", maxN)), 0, "2^53-1 is accepted")
 	// recursion over children
-	fi := paths.Info(f)
 	for _, c := range []struct {
 		name string
 		k    int64
@@ -253,9 +252,14 @@ func integerBounds(x *Ctx) {
 	}{{"list", kList, "ListIterator"}, {"map", kMap, "MapIterator"}} {
 		it := "invoke[github.com/ipld/go-ipld-prime.Node." + c.iter + "](arg0)"
 		var loop *paths.Loop
-		for _, l := range fi.Loops {
+		for _, la := range loopsIn(f) {
+			l := la.L
 			if iff, ok := l.Header.Instrs[len(l.Header.Instrs)-1].(*ssa.If); ok {
-				if strings.Contains(paths.DetachedTerm(f, iff.Cond).String(), it) {
+				ct := paths.DetachedTerm(l.Fn, iff.Cond)
+				if la.Sub != nil {
+					ct = ct.Subst(la.Sub)
+				}
+				if strings.Contains(ct.String(), it) {
 					loop = l
 				}
 			}
